@@ -180,7 +180,7 @@ def sig_of(c, fl):
     s = {"kind": "assembly", "pred": fl["p"], "shape": c["shape"], "dim": c["dim"], "class": c["class"], "test": c["test"], "trial": c["trial"],
          "mesh": c["meshname"], "op": "", "detail": ""}
     if job:
-        s["op"] = job.get("op", job.get("fn", job.get("bop", {"name": "graddiv"})))["name"]
+        s["op"] = job.get("op", job.get("fn", job.get("bop", {"name": ("bpar:" + "+".join(job["on"])) if job["k"] == "bpar" else "graddiv"})))["name"]
     d = fl["d"]
     s["detail"] = d if isinstance(d, str) and len(d) < 24 else ""
     return s
@@ -192,7 +192,7 @@ def report_harness_failure(chk, b, c, r):
     job = c["jobs"][0] if len(c["jobs"]) == 1 else None
     sig = {"kind": "harness", "pred": "harness:" + str(oc), "shape": c["shape"], "dim": c["dim"], "class": c["class"],
            "test": c["test"], "trial": c["trial"], "mesh": c["meshname"], "detail": "",
-           "op": job.get("op", job.get("fn", job.get("bop", {"name": "graddiv"})))["name"] if job else ""}
+           "op": job.get("op", job.get("fn", job.get("bop", {"name": ("bpar:" + "+".join(job["on"])) if job["k"] == "bpar" else "graddiv"})))["name"] if job else ""}
     slim = {k: c[k] for k in c if k != "out"}
     chk.violation(sig, "%s: %s" % (c["id"], " ".join(desc.split())[:500]), {"kind": "case", "harness": b, "case": slim, "result": r})
 
@@ -234,8 +234,8 @@ def _run(chk, tier, gdir):
                         "dense": ncells <= 8, "pat": ncells <= (300 if dim == 2 else 70)}
 
                 def jkey(j):
-                    return json.dumps([shape, dim, cls, test, trial, j["k"], j.get("op", j.get("fn", j.get("bop", {"name": "graddiv"}))), j["deg"]], sort_keys=True)
-                js = [restrict(j, SCALAR_ROUTES) for j in jobs if j["k"] not in ("blk", "gd")]
+                    return json.dumps([shape, dim, cls, test, trial, j["k"], j.get("op", j.get("fn", j.get("bop", {"name": "graddiv"}))), j["deg"], j.get("blocked"), j.get("on"), j.get("defo"), j.get("field")], sort_keys=True)
+                js = [restrict(j, SCALAR_ROUTES) for j in jobs if j["k"] not in ("blk", "gd", "bpar")]
                 js = [j for j in js if j["ref"] in j["routes"]]
                 cid = "%s_%s_%s" % (name, test, trial)
                 c = dict(base, id=cid, jobs=js, out=os.path.join(gdir, cid + ".json"))
@@ -247,7 +247,7 @@ def _run(chk, tier, gdir):
                     route_cover[jkey(j)][1] |= set(j["routes"])
                 if (shape, dim) in specials:
                     sj = [restrict(j, SPECIAL_ROUTES + ["classic"]) for j in jobs if j["k"] == "mat" and set(j["routes"]) & set(SPECIAL_ROUTES)]
-                    sj += [j for j in jobs if j["k"] in ("blk", "gd")]
+                    sj += [j for j in jobs if j["k"] in ("blk", "gd", "bpar")]
                     if sj:
                         cid2 = cid + "_sp"
                         c2 = dict(base, id=cid2, jobs=sj, out=os.path.join(gdir, cid2 + ".json"), dense=False, pat=False)
@@ -359,7 +359,7 @@ def _run(chk, tier, gdir):
             c = bycase[d["id"]]
             slim = {k: c[k] for k in c if k != "out"}
             job = d["jobs"][fl["j"] - 1] if fl["j"] >= 1 else None
-            chk.violation(sig_of(d, fl), "%s: %s does not hold (job %s, %s)" % (d["id"], fl["p"], json.dumps(job["spec"].get("op", job["spec"].get("fn", job["spec"].get("bop", "graddiv")))) if job else "-", fl["d"]),
+            chk.violation(sig_of(d, fl), "%s: %s does not hold (job %s, %s)" % (d["id"], fl["p"], json.dumps(job["spec"].get("op", job["spec"].get("fn", job["spec"].get("bop", {x: job["spec"].get(x) for x in ("k", "blocked", "on", "defo", "field")})))) if job else "-", fl["d"]),
                           {"kind": "case", "harness": "c16", "case": slim, "fail": fl, "obs": job["obs"] if job else None})
     if nids and nundec * 20 > nids:
         raise vlib.MachineryError("%d of %d identity values were not decidable within the rounding bound" % (nundec, nids))
@@ -378,7 +378,7 @@ def _run(chk, tier, gdir):
                 "(u,v) of the spaces; each plan is executed on every mesh of its class; one evaluation = one job on one mesh (all its routes and "
                 "identities), judged by TLC against spec/AssemblyCheck.tla; non-trivial = the case has at least one job; distinct = mesh x pair")
     for d in full[:3]:
-        chk.sample({"id": d["id"], "n": d["n"], "jobs": [j["spec"].get("op", j["spec"].get("fn", j["spec"].get("bop", "graddiv"))) for j in d["jobs"]][:6], "verdict": verdicts[d["id"]]})
+        chk.sample({"id": d["id"], "n": d["n"], "jobs": [j["spec"].get("op", j["spec"].get("fn", j["spec"].get("bop", j["spec"]["k"]))) for j in d["jobs"]][:6], "verdict": verdicts[d["id"]]})
     chk.assumptions = [
         "values of integrals are decided through scaled integers: |v*S - round(v*S)| <= tol*S with tol = 4096*eps*mag*W (mag from the mass/Laplace "
         "diagonals by Cauchy-Schwarz, W = sum over the pattern of |u_i||v_j|) and tol*S < 1/4; otherwise the value counts as undecidable (reported)",
@@ -403,7 +403,7 @@ def replay(obj):
                 continue
             seen.add(c["id"])
             key = (c["shape"], c["dim"])
-            special = any(j["k"] in ("blk", "gd") or set(j["routes"]) & set(SPECIAL_ROUTES) for j in c["jobs"])
+            special = any(j["k"] in ("blk", "gd", "bpar") or set(j["routes"]) & set(SPECIAL_ROUTES) for j in c["jobs"])
             b = (SPECIAL_BINS if special else BINARIES)[key]
             binary, = vlib.build([b])
             c = dict(c, out=os.path.join(tmp, c["id"] + ".json"))
